@@ -26,12 +26,15 @@ theorem sinh_pf_valid (x : TwoFloat) (hv : x.Valid) (hw : x.WF) : TwoFloat.sinh.
 theorem tanh_pf_valid (x : TwoFloat) (hv : x.Valid) (hw : x.WF) : TwoFloat.tanh.pf x = true :=
   tanh_pf x (Or.inl hv) hw
 
-/-- `acosh(x) = ln(x + sqrt(x² - 1))` -/
+/-- `acosh(x) = ln(x + sqrt(x² - 1))` (after the domain test `x < 1.0`, which cannot panic) -/
 theorem acosh_pf_partial (HR : PF.ExpHalfRecipInv) (x : TwoFloat) (hi : x.Inv) (hw : x.WF)
     (hs : (TwoFloat.sqrt (arithmetic.impl_Sub_f64_for_TwoFloat.sub
       (arithmetic.impl_Mul_TwoFloat_for_TwoFloat.mul x x) (f64lit 0x3ff0000000000000))).Inv) :
-    TwoFloat.acosh.pf x = true :=
-  PF.ln_pf HR _ (PF.good_add_tt ⟨hi, hw⟩ ⟨hs, PF.sqrt_WF _⟩)
+    TwoFloat.acosh.pf x = true := by
+  unfold TwoFloat.acosh.pf
+  split_ifs
+  · rfl
+  · exact PF.ln_pf HR _ (PF.good_add_tt ⟨hi, hw⟩ ⟨hs, PF.sqrt_WF _⟩)
 
 /-- `asinh(x) = ±ln(|x| + sqrt(x² + 1))` -/
 theorem asinh_pf_partial (HR : PF.ExpHalfRecipInv) (x : TwoFloat) (hi : x.Inv) (hw : x.WF)
